@@ -179,6 +179,11 @@ def tiny_configs():
         for er in (False, True):
             out.append(dict(n_features=2, n_samples=3, cardinality=2, ensure_rep=er, structure=s))
     for er in (False, True):
+        # bounds that are zero or negative (0 is a legitimate bound, not 'unset')
+        out.append(dict(n_features=1, n_samples=3, cardinality=2, ensure_rep=er, random_values=True, low=-3, high=0))
+        out.append(dict(n_features=1, n_samples=2, cardinality=1, ensure_rep=er, random_values=True, low=0, high=0))
+        out.append(dict(n_features=1, n_samples=3, cardinality=2, ensure_rep=er, low=-2, high=0))
+    for er in (False, True):
         # the default domain is [low, low+cardinality) even when that exceeds `high` (which only bounds random_values)
         out.append(dict(n_features=1, n_samples=4, cardinality=4, ensure_rep=er, low=7, high=9))
     for s in ([[1, [100, 101]]], [[0, [100]]], [[2, [100, 101]]], [[[0, 1], [100]]]):
@@ -234,6 +239,8 @@ def grid_configs():
                             if si in (0, 5) and k == 10:
                                 yield dict(n_features=nf, n_samples=ns, cardinality=card, k=k, ensure_rep=er, structure=s, low=20, high=40)
     for er in (False, True):
+        yield dict(n_features=2, n_samples=40, cardinality=5, ensure_rep=er, random_values=True, low=-10, high=0)
+        yield dict(n_features=2, n_samples=40, cardinality=3, ensure_rep=er, low=-5, high=0)
         yield dict(n_features=2, n_samples=1200, cardinality=1003, ensure_rep=er)
         yield dict(n_features=3, n_samples=6, cardinality=2, ensure_rep=er, structure=[[1, [2500, -3, 1000]]])
     for card in (1, 3, 6):
